@@ -4,7 +4,9 @@ use crate::spec::is_prefix;
 use crate::sut::*;
 use std::collections::BTreeSet;
 
-pub fn taints(facts: &[(usize, Fact)], has_merge: bool, noncausal: bool) -> BTreeSet<&'static str> {
+/// `all` = facts of the whole history (needed to tell whether a context dot belongs to another key);
+/// `t7_fired` = the schedule-level R7 trigger (see `r7_state`) held at some replica at some step
+pub fn taints(facts: &[(usize, Fact)], _all: &[(usize, Fact)], has_merge: bool, t7_fired: bool) -> BTreeSet<&'static str> {
     let mut t = BTreeSet::new();
     for (_, f) in facts {
         match f {
@@ -14,7 +16,10 @@ pub fn taints(facts: &[(usize, Fact)], has_merge: bool, noncausal: bool) -> BTre
             _ => {}
         }
     }
-    // T1: a register write nested in a map whose context names an actor other than its author
+    // T1: a register write nested in a map whose context names an actor other than its author. The value is
+    // identified by that whole clock (R1); dots of *other actors* in it - writes on other keys, or writes on the
+    // same key that it superseded - are what a key removal or a value comparison later trips over. (A sharper
+    // variant "covers a dot of another key path" was tried and rejected: R1 also manifests inside one key.)
     for (_, f) in facts {
         if let Fact::Up { dot, leaf: Leaf::Put(c, _), path } = f {
             if !path.is_empty() && c.keys().any(|a| *a != dot.0) {
@@ -56,14 +61,48 @@ pub fn taints(facts: &[(usize, Fact)], has_merge: bool, noncausal: bool) -> BTre
                 if nctx.iter().any(|(a, n)| *n > 0 && cget(ctx, *a) > 0) {
                     t.insert("T3");
                 }
-                // T7: non-causal delivery, nested remove with a non-empty context under a removed key
-                if noncausal && !nctx.is_empty() {
-                    t.insert("T7");
-                }
+                let _ = nctx;
             }
         }
     }
+    if t7_fired {
+        t.insert("T7");
+    }
     t
+}
+
+/// Schedule-level trigger of R7, over knowledge sets only (never implementation state): at knowledge set K some
+/// key path p is *absent* by the model (every update under p in K is covered by a removal of p or of a prefix in K)
+/// while K contains a nested remove under p that still waits for an add d outside K which none of those removals
+/// covers. The crate drops the entry together with the parked nested remove, so d comes back to life when it arrives.
+pub fn r7_state(k_facts: &[(usize, Fact)], all: &[(usize, Fact)], in_k: &dyn Fn(usize) -> bool) -> bool {
+    for (_, n) in k_facts {
+        let (nctx, npath) = match n {
+            Fact::Up { path, leaf: Leaf::SetRm(c, _), .. } if !path.is_empty() => (c, path.clone()),
+            Fact::Rm { ctx: c, path, carrier: Some(_) } => (c, path[..path.len() - 1].to_vec()),
+            _ => continue,
+        };
+        if nctx.is_empty() {
+            continue;
+        }
+        // every enclosing key path p of the nested remove
+        for plen in 1..=npath.len() {
+            let p = &npath[..plen];
+            let rms: Vec<&Clk> = k_facts.iter().filter_map(|(_, f)| match f { Fact::Rm { ctx, path, .. } if is_prefix(path, p) => Some(ctx), _ => None }).collect();
+            if rms.is_empty() {
+                continue;
+            }
+            let absent = k_facts.iter().all(|(_, f)| match f { Fact::Up { dot, path, .. } if is_prefix(p, path) => rms.iter().any(|c| cov(c, *dot)), _ => true });
+            if !absent {
+                continue;
+            }
+            let waiting = all.iter().any(|(id, f)| match f { Fact::Up { dot, path, .. } if is_prefix(p, path) && !in_k(*id) => cov(nctx, *dot) && !rms.iter().any(|c| cov(c, *dot)), _ => false });
+            if waiting {
+                return true;
+            }
+        }
+    }
+    false
 }
 
 /// which known finding (if any) can explain a violation of monitor kind `kind` on a history with taints `t`
